@@ -72,7 +72,7 @@ AnchTime(e, m, b) ==
     e.anchors[k] + ((m - e.tl[k].m) * e.tl[k].met * e.G + b - e.tl[k].b) * (e.tl[k].bl \div e.G)
 AnchSeg(e, t) == LET S == { k \in DOMAIN e.anchors : e.anchors[k] <= t } IN CHOOSE k \in S : \A j \in S : j <= k
 AnchWF(e) ==
-    /\ WellFormedTl(e.tl, e.G) /\ Seated(e.tl) /\ Len(e.anchors) = Len(e.tl)
+    /\ WellFormedTlDup(e.tl, e.G) /\ Seated(e.tl) /\ Len(e.anchors) = Len(e.tl)
     /\ \A k \in 2..Len(e.tl) :
           Abs(e.anchors[k] - (e.anchors[k-1] + (e.tl[k].m - e.tl[k-1].m) * e.tl[k-1].met * e.tl[k-1].bl)) < e.tl[k-1].bl \div 192
 AnchOffsetsClauses(e) ==
